@@ -63,15 +63,19 @@ func setPlaceholderNames(n *ast.MsgNode) {
 			continue
 		}
 
+		// a suffixed name must be neither taken already nor another placeholder's
+		// base name (e.g. {$a.x}{$b.x}{$x_1}): official Soy skips those too.
 		var nextSuffix = 1
 		for _, node := range nodes {
 			for {
 				var newName = baseName + "_" + strconv.Itoa(nextSuffix)
-				if _, ok := nameToRepNodes[newName]; !ok {
+				nextSuffix++
+				var _, taken = nameToRepNodes[newName]
+				var _, isBase = baseNameToRepNodes[newName]
+				if !taken && !isBase {
 					nameToRepNodes[newName] = node
 					break
 				}
-				nextSuffix++
 			}
 		}
 	}
